@@ -106,9 +106,23 @@ type FuncContract struct {
 	DefPkg    string
 	GhostUpd  []GhostUpdate
 	GhostSrc  []string
+	Watches   []GhostUpdate
+	Lenient   bool
+	CallSites []CallSiteAssert
 }
 
 type GhostDecl struct{ Name, Type string }
+
+// CallSiteAssert: an assertion of the caller at every call of a callee (optionally guarded by a
+// condition on the arguments); evaluated in the caller's scope with the callee's parameter names bound.
+type CallSiteAssert struct {
+	Callee string // suffix of the callee key
+	ArgIs  string // if set: only call sites one of whose argument expressions starts with this source text
+	When   SExpr
+	Assert SExpr
+	Src    string
+	Line   int
+}
 
 type ContractSet struct {
 	PkgPath  string // package the file belongs to ("" for deps files)
@@ -119,6 +133,7 @@ type ContractSet struct {
 	OnWrites []*OnWrite
 	OnSends  []*OnSend
 	Opaque   []string
+	Transparent []string
 	Funcs    map[string]*FuncContract
 	FuncOrd  []string
 }
@@ -128,8 +143,8 @@ func newContractSet(pkg string) *ContractSet {
 }
 
 var clauseKW = map[string]bool{"ghost": true, "pred": true, "fn": true, "axiom": true, "lemmadef": true, "onwrite": true, "onsend": true,
-	"opaque": true, "func": true, "params": true, "requires": true, "ensures": true, "modifies": true, "loop": true, "use": true,
-	"inline": true, "assumed": true, "overflow": true, "safety": true, "pure": true, "effect": true}
+	"opaque": true, "transparent": true, "lenient": true, "callsite": true, "func": true, "params": true, "requires": true, "ensures": true, "modifies": true, "loop": true, "use": true,
+	"inline": true, "assumed": true, "overflow": true, "safety": true, "pure": true, "effect": true, "watch": true}
 
 type rawClause struct {
 	kw   string
@@ -253,6 +268,9 @@ func loadContractFile(path string, prefixed bool, pkgPath string) (*ContractSet,
 			cur = nil
 		case "opaque":
 			cs.Opaque = append(cs.Opaque, rc.text)
+			cur = nil
+		case "transparent":
+			cs.Transparent = append(cs.Transparent, rc.text)
 			cur = nil
 		case "pred":
 			i := strings.Index(rc.text, ":=")
@@ -406,6 +424,35 @@ func loadContractFile(path string, prefixed bool, pkgPath string) (*ContractSet,
 					return nil, fmt.Errorf("%s: use NAME(args)", where)
 				}
 				cur.Uses = append(cur.Uses, UseHint{c.Fun, c.Args, rc.text})
+			case "lenient":
+				cur.Lenient = true
+			case "callsite":
+				// callsite CALLEE [when EXPR]: assert EXPR
+				i := strings.Index(rc.text, ": assert ")
+				if i < 0 {
+					return nil, fmt.Errorf("%s: callsite CALLEE [when EXPR]: assert EXPR", where)
+				}
+				head, body := strings.TrimSpace(rc.text[:i]), rc.text[i+len(": assert "):]
+				csa := CallSiteAssert{Src: rc.text, Line: rc.line}
+				if j := strings.Index(head, " when "); j >= 0 {
+					w, err := parseSpec(head[j+6:])
+					if err != nil {
+						return nil, fmt.Errorf("%s: %v", where, err)
+					}
+					csa.When = w
+					head = strings.TrimSpace(head[:j])
+				}
+				if j := strings.Index(head, " argis "); j >= 0 {
+					csa.ArgIs = strings.Trim(strings.TrimSpace(head[j+7:]), "\"")
+					head = strings.TrimSpace(head[:j])
+				}
+				csa.Callee = head
+				a, err := parseSpec(body)
+				if err != nil {
+					return nil, fmt.Errorf("%s: %v", where, err)
+				}
+				csa.Assert = a
+				cur.CallSites = append(cur.CallSites, csa)
 			case "inline":
 				cur.Inline = true
 			case "assumed":
@@ -416,6 +463,17 @@ func loadContractFile(path string, prefixed bool, pkgPath string) (*ContractSet,
 				cur.Overflow = strings.TrimSpace(rc.text) == "checked"
 			case "safety":
 				cur.SafetyOff = strings.TrimSpace(rc.text) == "off"
+			case "watch":
+				// watch NAME: EXPR   (entry-state value reported from counterexample models)
+				i := strings.Index(rc.text, ":")
+				if i < 0 {
+					return nil, fmt.Errorf("%s: watch NAME: EXPR", where)
+				}
+				w, err := parseSpec(rc.text[i+1:])
+				if err != nil {
+					return nil, fmt.Errorf("%s: %v", where, err)
+				}
+				cur.Watches = append(cur.Watches, GhostUpdate{strings.TrimSpace(rc.text[:i]), w})
 			case "effect":
 				cur.Effects = append(cur.Effects, strings.Fields(rc.text)...)
 			}
